@@ -13,7 +13,7 @@ SPEC = {
              ">= 2 instances and min(tokens, ammo) >= instances; distinct = hash of the case."),
     "floors": {"TestAccounting/ammo_lt_tokens": 0.1, "TestAccounting/ammo_eq_tokens": 0.1, "TestAccounting/per_instance": 0.3,
                "TestAccounting/shared": 0.3, "TestAccounting/discards": 0.03, "TestAccounting/composite_profile": 0.3,
-               "TestAccounting/profile_via_config": 0.2, "TestAccounting/per_instance_composite_via_config": 0.05},
+               "TestAccounting/profile_via_config": 0.1, "TestAccounting/ammo_ran_out_while_instances_were_still_being_started": 0.1, "TestAccounting/per_instance_composite_via_config": 0.05},
     "manifest": {
         "technique": "property-based testing (rapid) of the real engine with recording doubles; conservation-law oracle over the recorded history",
         "text": ("The real engine runs generated pool configurations against doubles that record every Acquire/Release/Shoot/Report; "
